@@ -248,3 +248,281 @@ example :
     (offlineStages g [0, 1, 2, 3]).1 = [[0, 1], [1, 2, 3]]
       ∧ (offlineStages g [0, 1, 2, 3]).2.trained = [3, 1] := by
   decide
+
+/-! the staged offline fit computes, for every node, what the explicit node-by-node procedure computes -/
+
+variable {D P : Type}
+
+/-- the dataset-level network: a node maps the (whole-dataset) outputs of its predecessors to its own;
+    an offline node first fits its parameters on those inputs (its targets are part of `fit`) -/
+def liftNet (g : SG) (fit : Nat → List D → P) (runD : Nat → P → List D → D) (zeroD : Nat → D) : FNet D P :=
+  { parents := g.parents, fbSender := fun _ => none,
+    fwd := fun v θ _ ins _ => ((if g.offline v then fit v ins else θ), runD v (if g.offline v then fit v ins else θ) ins),
+    zero := zeroD }
+
+theorem liftNet_nofb (g : SG) (fit : Nat → List D → P) (runD : Nat → P → List D → D) (zeroD : Nat → D) :
+    NoFeedback (liftNet g fit runD zeroD) := fun _ => rfl
+
+/-- the staging of `Model.fit` with its data actions: when a node is TRAINED its parameters are fitted on
+    the inputs currently in the store; when it is INCLUDED it is run forward with its current parameters -/
+structure DSt (D P : Type) where
+  ps : PassSt
+  σ : Store D P
+
+def passStepD (g : SG) (fit : Nat → List D → P) (runD : Nat → P → List D → D) (zeroD : Nat → D)
+    (ext : Nat → Option D) (s : DSt D P) (v : Nat) : DSt D P :=
+  let net := liftNet g fit runD zeroD
+  if ready g s.ps.included v then
+    if g.offline v && !s.ps.trained.contains v then
+      { ps := passStep g s.ps v, σ := upd s.σ v { s.σ v with mem := fit v (inputsOf net ext s.σ v) } }
+    else
+      { ps := passStep g s.ps v, σ := upd s.σ v { s.σ v with st := runD v (s.σ v).mem (inputsOf net ext s.σ v) } }
+  else { ps := passStep g s.ps v, σ := s.σ }
+
+def passD (g : SG) (fit : Nat → List D → P) (runD : Nat → P → List D → D) (zeroD : Nat → D)
+    (ext : Nat → Option D) (todo : List Nat) (s : DSt D P) : DSt D P :=
+  todo.foldl (passStepD g fit runD zeroD ext) s
+
+def stagesLoopD (g : SG) (fit : Nat → List D → P) (runD : Nat → P → List D → D) (zeroD : Nat → D)
+    (ext : Nat → Option D) (nodes offl : List Nat) : Nat → DSt D P → DSt D P
+  | 0, s => s
+  | fuel + 1, s =>
+    if offl.all (fun v => s.ps.trained.contains v) then s
+    else
+      let todo := nodes.filter (fun v => !s.ps.included.contains v)
+      stagesLoopD g fit runD zeroD ext nodes offl fuel
+        (passD g fit runD zeroD ext todo { s with ps := { s.ps with sub := [] } })
+
+/-- the bookkeeping component is exactly the staging of RpyModel.Stages -/
+theorem passStepD_ps (g : SG) (fit : Nat → List D → P) (runD : Nat → P → List D → D) (zeroD : Nat → D)
+    (ext : Nat → Option D) (s : DSt D P) (v : Nat) :
+    (passStepD g fit runD zeroD ext s v).ps = passStep g s.ps v := by
+  unfold passStepD
+  split
+  · split <;> rfl
+  · rfl
+
+section
+variable (g : SG) (fit : Nat → List D → P) (runD : Nat → P → List D → D) (zeroD : Nat → D)
+  (ext : Nat → Option D)
+
+/-- what the explicit procedure (one pass over a topological order) leaves in the store -/
+abbrev specStore (order : List Nat) (σ0 : Store D P) : Store D P :=
+  forwardF (liftNet g fit runD zeroD) ext order σ0
+
+/-- the data invariant of the staged fit w.r.t. the explicit procedure -/
+structure DInv (order : List Nat) (σ0 : Store D P) (s : DSt D P) : Prop where
+  inc_st : ∀ v ∈ s.ps.included, (s.σ v).st = (specStore g fit runD zeroD ext order σ0 v).st
+  tr_mem : ∀ v ∈ s.ps.trained, (s.σ v).mem = (specStore g fit runD zeroD ext order σ0 v).mem
+  other_mem : ∀ v, g.offline v = false → (s.σ v).mem = (σ0 v).mem
+
+theorem inputs_eq_of_parents (σ τ : Store D P) (v : Nat)
+    (h : ∀ p ∈ g.parents v, (σ p).st = (τ p).st) :
+    inputsOf (liftNet g fit runD zeroD) ext σ v = inputsOf (liftNet g fit runD zeroD) ext τ v := by
+  simp only [inputsOf, liftNet]
+  congr 1
+  apply List.map_congr_left
+  intro p hp
+  exact h p hp
+
+/-- the explicit procedure satisfies the node equations (from C02_forward_fixpoint) -/
+theorem spec_eqs (order : List Nat) (σ0 : Store D P) (ht : TopoFrom (liftNet g fit runD zeroD) order)
+    (v : Nat) (hv : v ∈ order) :
+    let spec := specStore g fit runD zeroD ext order σ0
+    let ins := inputsOf (liftNet g fit runD zeroD) ext spec v
+    (spec v).mem = (if g.offline v then fit v ins else (σ0 v).mem)
+    ∧ (spec v).st = runD v (if g.offline v then fit v ins else (σ0 v).mem) ins := by
+  intro spec ins
+  obtain ⟨h1, h2, _, _⟩ := C02_forward_fixpoint (liftNet g fit runD zeroD) (liftNet_nofb g fit runD zeroD) ext order σ0 ht v hv
+  simp only [evalNode, liftNet] at h1 h2
+  exact ⟨h2, h1⟩
+
+theorem dinv_step (order : List Nat) (σ0 : Store D P) (ht : TopoFrom (liftNet g fit runD zeroD) order)
+    (s : DSt D P) (v : Nat) (hv : v ∈ order) (hnot : v ∉ s.ps.included)
+    (hs : SInv g s.ps) (hd : DInv g fit runD zeroD ext order σ0 s) :
+    DInv g fit runD zeroD ext order σ0 (passStepD g fit runD zeroD ext s v) := by
+  have hspec := spec_eqs g fit runD zeroD ext order σ0 ht v hv
+  simp only at hspec
+  unfold passStepD
+  simp only
+  split
+  · rename_i hr
+    have hpar := ready_spec hr
+    have hins : inputsOf (liftNet g fit runD zeroD) ext s.σ v
+        = inputsOf (liftNet g fit runD zeroD) ext (specStore g fit runD zeroD ext order σ0) v :=
+      inputs_eq_of_parents g fit runD zeroD ext _ _ v (fun p hp => hd.inc_st p (hpar p hp))
+    split
+    · -- trained now
+      rename_i hoff
+      simp only [Bool.and_eq_true, Bool.not_eq_eq_eq_not, Bool.not_true, List.contains_eq_mem,
+        decide_eq_false_iff_not] at hoff
+      have hps : (passStep g s.ps v) = { s.ps with trained := v :: s.ps.trained, sub := s.ps.sub ++ [v] } := by
+        unfold passStep; simp [hr, hoff.1, hoff.2]
+      refine ⟨?_, ?_, ?_⟩
+      · intro w hw
+        rw [hps] at hw
+        have hwv : w ≠ v := fun e => hnot (e ▸ hw)
+        simp only [upd, hwv, if_false]
+        exact hd.inc_st w hw
+      · intro w hw
+        rw [hps] at hw
+        rcases List.mem_cons.mp hw with rfl | hw'
+        · simp only [upd, if_true]
+          rw [hins, hspec.1, hoff.1]; rfl
+        · by_cases hwv : w = v
+          · subst hwv; exact absurd hw' hoff.2
+          · simp only [upd, hwv, if_false]; exact hd.tr_mem w hw'
+      · intro w hw
+        by_cases hwv : w = v
+        · subst hwv; rw [hoff.1] at hw; cases hw
+        · simp only [upd, hwv, if_false]; exact hd.other_mem w hw
+    · -- included now
+      rename_i hoff
+      simp only [Bool.and_eq_true, Bool.not_eq_eq_eq_not, Bool.not_true, List.contains_eq_mem,
+        decide_eq_false_iff_not, not_and, not_not] at hoff
+      have hps : (passStep g s.ps v).included = v :: s.ps.included ∧ (passStep g s.ps v).trained = s.ps.trained := by
+        unfold passStep
+        have : ¬ (g.offline v = true ∧ v ∉ s.ps.trained) := fun h => h.2 (hoff h.1)
+        simp [hr, this]
+      have hmem : (s.σ v).mem = (if g.offline v then fit v (inputsOf (liftNet g fit runD zeroD) ext (specStore g fit runD zeroD ext order σ0) v) else (σ0 v).mem) := by
+        by_cases ho : g.offline v = true
+        · rw [hd.tr_mem v (hoff ho), hspec.1]
+        · have ho' : g.offline v = false := by simpa using ho
+          rw [hd.other_mem v ho']; simp [ho']
+      refine ⟨?_, ?_, ?_⟩
+      · intro w hw
+        rw [hps.1] at hw
+        rcases List.mem_cons.mp hw with rfl | hw'
+        · simp only [upd, if_true]
+          rw [hins, hmem, hspec.2]
+        · have hwv : w ≠ v := fun e => hnot (e ▸ hw')
+          simp only [upd, hwv, if_false]; exact hd.inc_st w hw'
+      · intro w hw
+        rw [hps.2] at hw
+        by_cases hwv : w = v
+        · subst hwv; simp only [upd, if_true]; exact hd.tr_mem w hw
+        · simp only [upd, hwv, if_false]; exact hd.tr_mem w hw
+      · intro w hw
+        by_cases hwv : w = v
+        · subst hwv; simp only [upd, if_true]; exact hd.other_mem w hw
+        · simp only [upd, hwv, if_false]; exact hd.other_mem w hw
+  · -- not ready: nothing happens
+    rename_i hr
+    have : passStep g s.ps v = s.ps := by unfold passStep; simp [hr]
+    exact ⟨by rw [this]; exact hd.inc_st, by rw [this]; exact hd.tr_mem, hd.other_mem⟩
+end
+
+section
+variable (g : SG) (fit : Nat → List D → P) (runD : Nat → P → List D → D) (zeroD : Nat → D)
+  (ext : Nat → Option D)
+
+theorem dinv_pass (order : List Nat) (σ0 : Store D P) (ht : TopoFrom (liftNet g fit runD zeroD) order) :
+    ∀ (todo : List Nat) (s : DSt D P), todo.Nodup → (∀ v ∈ todo, v ∉ s.ps.included) → (∀ v ∈ todo, v ∈ order) →
+      SInv g s.ps → DInv g fit runD zeroD ext order σ0 s →
+      SInv g (passD g fit runD zeroD ext todo s).ps ∧ DInv g fit runD zeroD ext order σ0 (passD g fit runD zeroD ext todo s) := by
+  intro todo
+  induction todo with
+  | nil => intro s _ _ _ hs hd; exact ⟨hs, hd⟩
+  | cons v vs ih =>
+    intro s hnd hfresh hord hs hd
+    simp only [passD, List.foldl_cons]
+    have hnd' := List.nodup_cons.mp hnd
+    have hv : v ∉ s.ps.included := hfresh v (by simp)
+    have hs' : SInv g (passStepD g fit runD zeroD ext s v).ps := by
+      rw [passStepD_ps]; exact sinv_step g s.ps v hv hs
+    have hd' := dinv_step g fit runD zeroD ext order σ0 ht s v (hord v (by simp)) hv hs hd
+    apply ih _ hnd'.2 _ (fun w hw => hord w (List.mem_cons_of_mem _ hw)) hs' hd'
+    intro w hw hin
+    rw [passStepD_ps] at hin
+    rcases passStep_inc_new g s.ps v w hin with h1 | h1
+    · exact hfresh w (List.mem_cons_of_mem _ hw) h1
+    · subst h1; exact hnd'.1 hw
+
+theorem dinv_loop (order : List Nat) (σ0 : Store D P) (ht : TopoFrom (liftNet g fit runD zeroD) order)
+    (nodes offl : List Nat) (hnd : nodes.Nodup) (hord : ∀ v ∈ nodes, v ∈ order) :
+    ∀ (fuel : Nat) (s : DSt D P), SInv g s.ps → DInv g fit runD zeroD ext order σ0 s →
+      SInv g (stagesLoopD g fit runD zeroD ext nodes offl fuel s).ps
+      ∧ DInv g fit runD zeroD ext order σ0 (stagesLoopD g fit runD zeroD ext nodes offl fuel s) := by
+  intro fuel
+  induction fuel with
+  | zero => intro s hs hd; exact ⟨hs, hd⟩
+  | succ n ih =>
+    intro s hs hd
+    simp only [stagesLoopD]
+    split
+    · exact ⟨hs, hd⟩
+    · have hs0 : SInv g ({ s with ps := { s.ps with sub := [] } } : DSt D P).ps :=
+        ⟨hs.inc_nodup, hs.tr_nodup, hs.tr_offline, hs.off_inc_trained, hs.inc_closed, hs.tr_ready⟩
+      have hd0 : DInv g fit runD zeroD ext order σ0 ({ s with ps := { s.ps with sub := [] } } : DSt D P) :=
+        ⟨hd.inc_st, hd.tr_mem, hd.other_mem⟩
+      obtain ⟨hs1, hd1⟩ := dinv_pass g fit runD zeroD ext order σ0 ht
+        (nodes.filter (fun v => !s.ps.included.contains v)) _ (hnd.filter _)
+        (by
+          intro v hv
+          simp only [List.mem_filter, Bool.not_eq_eq_eq_not, Bool.not_true, List.contains_eq_mem,
+            decide_eq_false_iff_not] at hv
+          exact hv.2)
+        (fun v hv => hord v (List.mem_filter.mp hv).1) hs0 hd0
+      exact ih _ hs1 hd1
+
+/-- `Model.fit` with its data: the staging of RpyModel.Stages, carrying the store -/
+def offlineStagesD (nodes : List Nat) (σ0 : Store D P) : DSt D P :=
+  stagesLoopD g fit runD zeroD ext nodes (nodes.filter g.offline) (nodes.length + 2) ⟨⟨[], [], []⟩, σ0⟩
+
+/-- **The staged offline fit refines the explicit node-by-node procedure.**  For every DAG, every
+    choice of offline nodes, every fitting rule and node semantics (a node maps the whole-dataset
+    outputs of its predecessors to its own, an offline node fits on exactly those inputs first),
+    every topological order and every start store: whatever `Model.fit`'s staging trains gets the
+    parameters the explicit procedure — one pass over the nodes in topological order: run the
+    predecessors over the data, fit on their outputs, feed the fitted node's outputs on — gives it,
+    and whatever it runs forward produces the outputs of the explicit procedure. -/
+theorem C06_fit_refines_explicit (nodes order : List Nat) (σ0 : Store D P) (hnd : nodes.Nodup)
+    (ht : TopoFrom (liftNet g fit runD zeroD) order) (hord : ∀ v ∈ nodes, v ∈ order) :
+    let r := offlineStagesD g fit runD zeroD ext nodes σ0
+    let spec := forwardF (liftNet g fit runD zeroD) ext order σ0
+    (∀ v ∈ r.ps.trained, (r.σ v).mem = (spec v).mem)
+    ∧ (∀ v ∈ r.ps.included, (r.σ v).st = (spec v).st)
+    ∧ (∀ v, g.offline v = false → (r.σ v).mem = (σ0 v).mem) := by
+  intro r spec
+  have hs0 : SInv g (⟨⟨[], [], []⟩, σ0⟩ : DSt D P).ps :=
+    ⟨List.nodup_nil, List.nodup_nil, by simp, by simp, by simp, by simp⟩
+  have hd0 : DInv g fit runD zeroD ext order σ0 (⟨⟨[], [], []⟩, σ0⟩ : DSt D P) :=
+    ⟨by simp, by simp, fun _ _ => rfl⟩
+  obtain ⟨_, hd⟩ := dinv_loop g fit runD zeroD ext order σ0 ht nodes (nodes.filter g.offline) hnd hord
+    (nodes.length + 2) _ hs0 hd0
+  exact ⟨hd.tr_mem, hd.inc_st, hd.other_mem⟩
+
+/-- the bookkeeping of the data-carrying staging IS the staging of RpyModel.Stages -/
+theorem stagesLoopD_ps (nodes offl : List Nat) : ∀ (fuel : Nat) (s : DSt D P) (acc : List (List Nat)),
+    (stagesLoopD g fit runD zeroD ext nodes offl fuel s).ps = (stagesLoop g nodes offl fuel s.ps acc).2 := by
+  intro fuel
+  induction fuel with
+  | zero => intro s acc; rfl
+  | succ n ih =>
+    intro s acc
+    simp only [stagesLoopD, stagesLoop]
+    split
+    · rfl
+    · have hp : ∀ (todo : List Nat) (t : DSt D P), (passD g fit runD zeroD ext todo t).ps = pass g todo t.ps := by
+        intro todo
+        induction todo with
+        | nil => intro t; rfl
+        | cons v vs ihv => intro t; simp only [passD, pass, List.foldl_cons]; rw [← passStepD_ps g fit runD zeroD ext t v]; exact ihv _
+      rw [ih _ (acc ++ [(pass g (nodes.filter (fun v => !s.ps.included.contains v)) { s.ps with sub := [] }).sub]), hp]
+end
+
+/-- the staging part of the data-carrying fit is `offlineStages` itself -/
+theorem offlineStagesD_ps {D P : Type} (g : SG) (fit : Nat → List D → P) (runD : Nat → P → List D → D) (zeroD : Nat → D)
+    (ext : Nat → Option D) (nodes : List Nat) (σ0 : Store D P) :
+    (offlineStagesD g fit runD zeroD ext nodes σ0).ps = (offlineStages g nodes).2 :=
+  stagesLoopD_ps g fit runD zeroD ext nodes (nodes.filter g.offline) (nodes.length + 2) ⟨⟨[], [], []⟩, σ0⟩ []
+
+/-! non-vacuity: entry 0 → offline readout 1 → node 2 → offline readout 3; "fit" = 100 + sum of the inputs,
+    "run" = θ + sum.  The second readout is fitted on what the first, fitted, readout produces. -/
+def demoG : SG := ⟨fun v => if v = 0 then [] else [v - 1], fun v => v == 3, fun v => v == 1 || v == 3⟩
+def demoσ : Store Nat Nat := ⟨fun _ => ⟨0, 0, none, none⟩⟩
+def demoR := offlineStagesD demoG (fun _ ins => 100 + ins.sum) (fun _ θ ins => θ + ins.sum) (fun _ => 0)
+  (fun v => if v = 0 then some 5 else none) [0, 1, 2, 3] demoσ
+
+example : demoR.ps.trained = [3, 1] ∧ (demoR.σ 1).mem = 105 ∧ (demoR.σ 1).st = 110 ∧ (demoR.σ 2).st = 110
+    ∧ (demoR.σ 3).mem = 210 ∧ 2 ∈ demoR.ps.included := by decide
